@@ -13,12 +13,12 @@ import (
 
 // Frame is one function activation on a path.
 type Frame struct {
-	Fn      *ssa.Function
-	Regs    map[ssa.Value]Val
-	Cells   map[*ssa.Alloc]int
-	Active  map[*ssa.BasicBlock]*LoopCtx // loop headers already entered on this path
-	Defers  []deferred
-	Params  []Val
+	Fn       *ssa.Function
+	Regs     map[ssa.Value]Val
+	Cells    map[*ssa.Alloc]int
+	Active   map[*ssa.BasicBlock]*LoopCtx // loop headers already entered on this path
+	Defers   []deferred
+	Params   []Val
 	Contract *Contract
 }
 
@@ -31,13 +31,13 @@ type deferred struct {
 
 // LoopCtx is remembered when a loop is entered so that the back edge can be checked.
 type LoopCtx struct {
-	Spec      *LoopSpec
-	Ord       int
-	EntryHeap map[string]*Term
+	Spec       *LoopSpec
+	Ord        int
+	EntryHeap  map[string]*Term
 	EntryAlloc *Term
-	Written   []string // heap classes havocked
-	Info      *loopInfo
-	Unrolled  int
+	Written    []string // heap classes havocked
+	Info       *loopInfo
+	Unrolled   int
 }
 
 type cellContent struct {
@@ -82,12 +82,14 @@ type TraceEv struct {
 
 // Discovery collects the write set of a loop body.
 type Discovery struct {
-	Depth   int
-	Loop    *loopInfo
-	Cells   map[int]bool
-	Classes map[string]bool
-	Iters   map[int]bool
-	Ghosts  map[string]bool
+	Depth        int
+	Loop         *loopInfo
+	Cells        map[int]bool
+	Classes      map[string]bool // classes written at objects that may have existed at loop entry
+	FreshClasses map[string]bool // classes written only at objects allocated inside the body
+	FreshBases   map[int]*big.Int
+	Iters        map[int]bool
+	Ghosts       map[string]bool
 }
 
 func (st *State) clone() *State {
@@ -162,10 +164,38 @@ func (e *Engine) H(st *State, class string, s Sort) *Term {
 
 func (e *Engine) setH(st *State, class string, t *Term) {
 	e.classSort(class, t.Sort)
+	prev := st.Heap[class]
 	st.Heap[class] = t
 	st.Written[class] = true
+	if d := st.Disc; d != nil {
+		// a write to an object allocated inside the loop body does not disturb objects that existed at loop entry
+		if t.Op == "store" && prev != nil && (t.Args[0] == prev || (prev.Op == "store" && prev.Args[1] == t.Args[1] && prev.Args[0] == t.Args[0])) && d.isFresh(t.Args[1]) {
+			d.FreshClasses[class] = true
+			return
+		}
+		d.Classes[class] = true
+	}
+}
+
+// isFresh: the reference was allocated after the discovery started (syntactic check on the allocation counter).
+func (d *Discovery) isFresh(ref *Term) bool {
+	b, k := splitOffset(ref)
+	if b == nil {
+		return false
+	}
+	min, ok := d.FreshBases[b.ID]
+	return ok && k.Cmp(min) >= 0
+}
+
+// noteAlloc registers a new allocation-counter term as lying beyond the loop entry.
+func (st *State) noteAlloc() {
 	if st.Disc != nil {
-		st.Disc.Classes[class] = true
+		b, k := splitOffset(st.Alloc)
+		if b != nil {
+			if _, ok := st.Disc.FreshBases[b.ID]; !ok {
+				st.Disc.FreshBases[b.ID] = k
+			}
+		}
 	}
 }
 
